@@ -383,6 +383,20 @@ def run(ctx):
                  + f"; every word of M of length 2..{L} ({sum(4 * 2 ** (n - 1) for n in range(2, L + 1))} words per basis); "
                    "non-trivial = some word accepted and some rejected")
     ctx.add_sample("C15.accept", ((Perm((0, 2, 1)), Perm((1, 0, 2))), L))
+    # bases with an element of length 6 - the first length at which a permutation can fail to be a pin permutation
+    # (56 of 720): such an element has no pin word at all, its automaton accepts nothing
+    from permuta.permutils.pin_words import PinWords as _PW
+    with_pins = set(_PW.pinword_to_perm_mapping(6).values())
+    p6 = D.perms(6)
+    nonpin6 = [p for p in p6 if p not in with_pins]
+    six = []
+    for j in range(8 if quick else 48):
+        big = rng.choice(nonpin6) if j % 4 else rng.choice(p6)
+        six.append(tuple([rng.choice(small[4:]) for _ in range(j % 3)] + [big]))
+    bases = bases + six
+    ctx.run("C15.accept", [(b, L) for b in six], chunk=4, timeout_s=900,
+            rule=f"{len(six)} seeded bases of 1-3 elements with one of length 6 (three quarters of them one of the "
+                 f"{len(nonpin6)} permutations of length 6 without a pin word), same words")
     ctx.run("C15.finite", [(b, L + 1) for b in bases], chunk=2, timeout_s=900,
             rule="same bases; exact decision on the product of the real transition table with M "
                  "(trim, cycle detection); longest rejected word and pumped rejected words (k = 0..3 and one of length >= 16) decoded and tested "
